@@ -100,6 +100,77 @@ static std::vector<uint32_t> interest_offsets(const std::vector<uint8_t> &d) {
     return v;
 }
 
+// Monotone offset / location arrays the parsers relate element to element (class offsets, pass offsets, Gloc locations, rule-map /
+// constraint / action offset arrays): the 'rel' mutation sets one element to another element's value +- a small step, which is
+// how coordinated "lies" (an offset equal to the end offset, two equal neighbours, a crossing pair) are produced systematically.
+struct OffArr { uint32_t off; uint8_t width; uint32_t count; const char *what; };
+static std::vector<OffArr> offset_arrays(const std::vector<uint8_t> &d) {
+    std::vector<OffArr> v;
+    std::map<uint32_t, SfntDirEnt> T;
+    for (auto &e : sfnt_dir(d)) T[e.tag] = e;
+    auto tag = [](const char *s) { return uint32_t(uint8_t(s[0])) << 24 | uint32_t(uint8_t(s[1])) << 16 | uint32_t(uint8_t(s[2])) << 8 | uint8_t(s[3]); };
+    if (T.count(tag("Gloc"))) {
+        SfntDirEnt g = T[tag("Gloc")];
+        if (g.len > 12) {
+            unsigned flags = rd16(&d[g.off + 4]), na = rd16(&d[g.off + 6]);
+            unsigned w = flags & 1 ? 4 : 2;
+            size_t bytes = g.len - 8 - (flags & 2 ? 2 * size_t(na) : 0);
+            if (bytes / w >= 2 && bytes <= g.len) v.push_back({g.off + 8, uint8_t(w), uint32_t(bytes / w), "Gloc locations"});
+        }
+    }
+    if (T.count(tag("Silf"))) {
+        SfntDirEnt s = T[tag("Silf")];
+        const uint8_t *p = d.data() + s.off;
+        if (s.len > 40) {
+            uint32_t ver = rd32(p);
+            size_t hdr = ver >= 0x30000 ? 12 : 8;
+            uint32_t sub = rd32(p + hdr);
+            size_t q = sub + (ver >= 0x30000 ? 8 : 0);
+            if (q + 24 < s.len) {
+                unsigned numPasses = p[q + 6], numJ = p[q + 19];
+                size_t r = q + 20 + 8 * numJ + 2 + 1 + 1 + 1 + 1 + 3;
+                if (r + 2 < s.len) {
+                    r += 1 + 2 * size_t(p[r]) + 1;
+                    if (r + 1 < s.len) {
+                        r += 1 + 4 * size_t(p[r]) + 2;
+                        if (numPasses <= 128 && r + 4 * (numPasses + 1) + 8 < s.len) {
+                            v.push_back({uint32_t(s.off + r), 4, numPasses + 1, "Silf pass offsets"});
+                            size_t q2 = r + 4 * (numPasses + 1);
+                            unsigned npseudo = rd16(p + q2);
+                            size_t cm = q2 + 8 + 6 * size_t(npseudo);
+                            if (cm + 8 < s.len) {
+                                unsigned ncls = rd16(p + cm);
+                                unsigned w = ver >= 0x40000 ? 4 : 2;
+                                if (cm + 4 + size_t(w) * (ncls + 1) < s.len) v.push_back({uint32_t(s.off + cm + 4), uint8_t(w), ncls + 1, "class offsets"});
+                            }
+                            for (unsigned i = 0; i < numPasses; ++i) {
+                                uint32_t ps = rd32(p + r + 4 * i), pe = rd32(p + r + 4 * i + 4);
+                                if (sub + ps + 48 >= s.len || pe <= ps) continue;
+                                const uint8_t *P = p + sub + ps;
+                                size_t plen = std::min<size_t>(pe - ps, s.len - sub - ps);
+                                unsigned numRules = rd16(P + 4), numSuccess = rd16(P + 28), numRange = rd16(P + 32);
+                                size_t o = 40 + 6 * size_t(numRange);
+                                if (o + 2 * (numSuccess + 1) >= plen) continue;
+                                v.push_back({uint32_t(s.off + sub + ps + o), 2, numSuccess + 1, "rule-map offsets"});
+                                unsigned nent = rd16(P + o + 2 * numSuccess);
+                                o += 2 * (size_t(numSuccess) + 1) + 2 * size_t(nent);
+                                if (o + 2 >= plen) continue;
+                                unsigned minpre = P[o], maxpre = P[o + 1];
+                                if (maxpre < minpre) continue;
+                                o += 2 + 2 * size_t(maxpre - minpre + 1) + 2 * size_t(numRules) + numRules + 1 + 2;
+                                if (o + 4 * (size_t(numRules) + 1) >= plen) continue;
+                                v.push_back({uint32_t(s.off + sub + ps + o), 2, numRules + 1, "constraint offsets"});
+                                v.push_back({uint32_t(s.off + sub + ps + o + 2 * (numRules + 1)), 2, numRules + 1, "action offsets"});
+                            }
+                        }
+                    }
+                }
+            }
+        }
+    }
+    return v;
+}
+
 struct FuzzRec { uint32_t off; uint8_t val; };
 static std::vector<FuzzRec> read_fuzz(const std::string &path) {
     std::vector<FuzzRec> v;
@@ -222,6 +293,7 @@ int main(int argc, char **argv) {
         else for (uint32_t c = 0x20; c < 0x7F; ++c) rep.push_back(c);
     }
     std::vector<uint32_t> interest = interest_offsets(base);
+    std::vector<OffArr> arrays = offset_arrays(base);
     std::vector<FuzzRec> fuzz;
     if (mut == "fuzz") fuzz = read_fuzz(a.get("fuzzfile"));
     std::vector<SfntDirEnt> dir = sfnt_dir(base);
@@ -288,6 +360,22 @@ int main(int argc, char **argv) {
                     desc += fmt(" + %lld:%d %u->%u", (long long)o2, w, c2, n2);
                 }
             }
+        } else if (mut == "rel") {
+            if (arrays.empty()) { st.add("skipped_no_arrays"); continue; }
+            // systematic part: for every array, element i <- element j + d for j in {last, i+1, i-1, first} and small d; then seeded
+            const OffArr &A = arrays[size_t(g) % arrays.size()];
+            long sub = g / long(arrays.size());
+            static const int steps[] = {0, -1, 1, -2, 2, -4, 4, -6};
+            uint32_t i = sub < long(A.count) * 32 ? uint32_t(sub / 32) : r.below(A.count);
+            int jsel = int((sub / 8) % 4), dsel = int(sub % 8);
+            uint32_t j = jsel == 0 ? A.count - 1 : jsel == 1 ? (i + 1 < A.count ? i + 1 : i) : jsel == 2 ? (i ? i - 1 : 0) : 0;
+            if (sub >= long(A.count) * 32) { j = r.below(A.count); dsel = int(r.below(8)); }
+            uint8_t *pi = &m[A.off + size_t(A.width) * i], *pj = &m[A.off + size_t(A.width) * j];
+            uint32_t cur = A.width == 2 ? rd16(pi) : rd32(pi), src = A.width == 2 ? rd16(pj) : rd32(pj);
+            uint32_t nv = src + uint32_t(steps[dsel]);
+            if (A.width == 2) wr16(pi, nv); else wr32(pi, nv);
+            desc = fmt("rel %s[%u] %u -> [%u]%+d = %u", A.what, i, cur, j, steps[dsel], nv);
+            if (nv == cur) { st.add("skipped_identity"); continue; }
         } else if (mut == "random") {
             int nm = r.range(1, 3);
             for (int i = 0; i < nm; ++i) {
